@@ -488,23 +488,62 @@ def defaults(chk: Check) -> None:
     pp = prog.func('ports.PortNamespace.pre_process')
     ff = chk.ctx.facts.analyse(pp)
     cfg = ff.cfg
-    calls = [n for n in cfg.nodes if any(isinstance(c.func, ast.Name) and c.func.id == 'default' for c in _calls(n))]
-    # the call of the port's default (through a local or directly): ``<port>.default()``
-    dcalls = [c for c in calls_in_func(pp) if not c.args and not c.keywords and ff.canon.key(c.func).endswith('.default')]
-    ok = len(dcalls) == 1 and all(('T', f'callable({ff.canon.key(dcalls[0].func)})') in fs for _, fs in ff.site_facts(dcalls[0]))
-    chk.ob('PROV-defaults', pp, ok, 'a callable default is evaluated (once) when it is used', kind='callable-evaluated')
+    # decision tables per iteration of the loop over the declared ports (locals re-bound on the way are followed along each path)
+    from ..decisions import leaf as _lf3, paths_under as _pu3, value_on_path as _vop3
     vp = pp.params[1]
+    it_ = [m for m in cfg.nodes if m.kind == 'iter']
+    tgt_ = [norm(x) for x in it_[0].ast.target.elts] if it_ and isinstance(it_[0].ast.target, ast.Tuple) else ['name', 'port']
+    starts_ = [t for t, l in it_[0].succ if l not in ('exc', 'uncaught', 'handler') and it_[0].id in cfg.reachable([t], edge_ok=no_exc)] if it_ else []
+    K_SUP, K_NS, K_POP, K_DEF = f'{tgt_[0]} in {vp}', _lf3(ff, ast.parse(f'isinstance({tgt_[1]}, PortNamespace)', mode='eval').body)[0], f'{tgt_[1]}.populate_defaults', f'{tgt_[1]}.has_default()'
+    FROZEN = [tgt_[0], tgt_[1], vp]
+
+    def iterations(val):
+        """(path up to the way back to the loop head, index of the store under the name or None)"""
+        out_ = []
+        for st_ in starts_:
+            for path in _pu3(ff, val, start=st_, frozen=FROZEN):
+                if path[-1] is cfg.raise_exit:
+                    continue
+                cut = path[:path.index(it_[0])] if it_[0] in path else path
+                idx = [i for i, m in enumerate(cut) if m.kind == 'stmt' and isinstance(m.ast, ast.Assign) and isinstance(m.ast.targets[0], ast.Subscript) and norm(m.ast.targets[0].value) == vp]
+                out_.append((cut, idx[-1] if idx else None))
+        return out_
+    ok = bool(starts_)
+    n_c = {True: 0, False: 0}
+    for cut, i in (iterations({K_SUP: False, K_DEF: True, K_POP: True}) if ok else []):
+        if i is None:
+            ok = False
+            continue
+        v = _vop3(cut, i, cut[i].ast.value, depth=6)
+        called = any(isinstance(c, ast.Call) and not c.args and not c.keywords and norm(c.func).endswith('.default') for c in ast.walk(v))
+        branch = None
+        for j, m in enumerate(cut[:-1]):
+            if m.kind == 'test' and norm(ff.subst_flags(m.ast.test, ff.at(m))).startswith('callable('):
+                branch = next((l for t_, l in m.succ if t_ is cut[j + 1] and l in ('true', 'false')), branch)
+        ife = [x for x in ast.walk(v) if isinstance(x, ast.IfExp) and norm(x.test).startswith('callable(')]
+        if ife:
+            # ``default() if callable(default) else default`` (possibly inside the copy / the recursive call): the conditional expression carries both cases
+            called = all(any(isinstance(c, ast.Call) and not c.args and norm(c.func).endswith('.default') for c in ast.walk(x.body))
+                         and not any(isinstance(c, ast.Call) and norm(c.func).endswith('.default') for c in ast.walk(x.orelse)) for x in ife)
+            ok = ok and called
+            n_c[True] += 1
+            n_c[False] += 1
+            continue
+        if branch is None:
+            ok = False
+            continue
+        n_c[branch == 'true'] += 1
+        ok = ok and (called == (branch == 'true')) and '.default' in norm(v)
+    ok = ok and n_c[True] > 0 and n_c[False] > 0
+    chk.ob('PROV-defaults', pp, ok, 'a callable default is evaluated (once) when it is used', kind='callable-evaluated')
     use = [n for n in cfg.nodes if any(norm(c.func).endswith('.has_default') for c in _calls(n))]
     hd = [c for c in calls_in_func(pp) if norm(c.func).endswith('.has_default')]
     ok = bool(hd) and all(('F', f'name in {vp}') in fs for c in hd for _, fs in ff.site_facts(c))
     chk.ob('PROV-defaults', pp, ok, 'defaults are considered only for ports the caller did not supply', kind='only-when-missing')
-    skip = [n for n in cfg.nodes if n.kind == 'test' and 'populate_defaults' in norm(n.ast.test)]
-    ok = False
-    if skip:
-        # what the test knows when it holds (a local standing for one of the conjuncts is read through)
-        t = ff.subst_flags(skip[0].ast.test, ff.at(skip[0]))
-        want = ast.parse(f'name not in {vp} and isinstance(port, PortNamespace) and not port.populate_defaults', mode='eval').body
-        ok = ff.cond_atoms(t, True) == ff.cond_atoms(want, True) and isinstance(t, ast.BoolOp) and isinstance(t.op, ast.And)
+    # not supplied, a namespace, populate_defaults off: nothing is stored for it on any path; supplied: it is processed like any other namespace
+    left_out = iterations({K_SUP: False, K_NS: True, K_POP: False})
+    given = iterations({K_SUP: True, K_NS: True, K_POP: False})
+    ok = bool(left_out) and all(i is None for _, i in left_out) and bool(given) and all(i is not None for _, i in given)
     chk.ob('PROV-defaults', pp, ok, 'a namespace marked populate_defaults=False is left out only when the caller supplied nothing for it', kind='populate-defaults')
     loops = [l for l in ast.walk(pp.node) if isinstance(l, ast.For)]
     chk.ob('PROV-defaults', pp, len(loops) == 1 and norm(loops[0].iter) in ('self.items()', 'self._ports.items()', 'self.ports.items()'), 'every declared port is considered', kind='all-ports')
